@@ -167,7 +167,8 @@ func scopeSexp(pkg *types.Package) string {
 			tparams = named.TypeParams()
 		}
 		iface := obj.Type().Underlying().(*types.Interface).Complete()
-		fmt.Fprintf(&b, " (%s (iface %v (tparams", q(name), tparams != nil && tparams.Len() > 0)
+		_, isTN := obj.(*types.TypeName)
+		fmt.Fprintf(&b, " (%s (iface %v %v (tparams", q(name), tparams != nil && tparams.Len() > 0, isTN)
 		if tparams != nil {
 			for i := 0; i < tparams.Len(); i++ {
 				tp := tparams.At(i)
